@@ -153,15 +153,23 @@ func (app *Application) disburseFeesVQ(
 		return fmt.Errorf("add FeeSplitWeightNextPropose: %w", err)
 	}
 	shareNextProposer := perValidator.Clone()
-	if err = shareNextProposer.Mul(&consensusParameters.FeeSplitWeightNextPropose); err != nil {
-		return fmt.Errorf("multiply shareNextProposer: %w", err)
-	}
-	if err = shareNextProposer.Quo(denom); err != nil {
-		return fmt.Errorf("divide shareNextProposer: %w", err)
-	}
 	shareVote := perValidator.Clone()
-	if err = shareVote.Sub(shareNextProposer); err != nil {
-		return fmt.Errorf("subtract shareVote: %w", err)
+	if denom.IsZero() {
+		// Neither the voters nor the next proposer have a weight. These fees were set aside under
+		// other weights (the parameters have been changed since), so there is nobody to pay them
+		// to and everything goes into the common pool below.
+		shareNextProposer = quantity.NewQuantity()
+		shareVote = quantity.NewQuantity()
+	} else {
+		if err = shareNextProposer.Mul(&consensusParameters.FeeSplitWeightNextPropose); err != nil {
+			return fmt.Errorf("multiply shareNextProposer: %w", err)
+		}
+		if err = shareNextProposer.Quo(denom); err != nil {
+			return fmt.Errorf("divide shareNextProposer: %w", err)
+		}
+		if err = shareVote.Sub(shareNextProposer); err != nil {
+			return fmt.Errorf("subtract shareVote: %w", err)
+		}
 	}
 
 	// Multiply to get the next proposer's total payment.
